@@ -73,6 +73,9 @@ inductive Ev
   | lost (aid id : Nat)
   /-- ghost: job dropped without any report (factory stopped with jobs in a worker queue, …) -/
   | dropped (id : Nat)
+  /-- the acceptance port of a job was dropped unanswered (the job was still in the factory's
+  mailbox when the factory actor stopped) -/
+  | portClosed (id : Nat)
   /-- the factory's handler hit `panic!` (RouteResult::Backlog with a targeted worker) -/
   | panicked
   /-- quiescent snapshot: up?, the three queries (none = no answer), live worker actors -/
@@ -174,14 +177,13 @@ def Env.reject (e : Env) (j : Job) : Env := if j.port then e.emit (.reply j.id t
 def Env.accept (e : Env) (j : Job) : Env := if j.port then e.emit (.reply j.id false) else e
 
 /-- `actor.cast(WorkerMessage::Dispatch(job))`: fails (returning the job) iff the actor is
-closed. An idle actor starts the job at once (its handler logs `start` and waits at the gate). -/
+closed. The message lands in the mailbox; the worker task only runs once the factory task
+yields (`Env.settle`). -/
 def Env.cast (e : Env) (aid : Nat) (j : Job) : Option Env :=
   match e.getActor aid with
   | none => none
   | some a =>
     if !a.alive then none
-    else if a.running.isNone then
-      some ((e.setActor { a with running := some j }).emit (.start aid j.id j.key))
     else some (e.setActor { a with mailbox := a.mailbox ++ [j] })
 
 /-- The actor exits: whatever it held is lost with it; its supervisor gets the event. -/
@@ -195,14 +197,28 @@ def Env.die (e : Env) (aid : Nat) : Env :=
       let e := e.setActor { a with alive := false, running := none, mailbox := [], stopReq := false }
       { e with log := e.log ++ held.map (fun j => Ev.lost aid j.id), sup := e.sup ++ [aid] }
 
-/-- `actor.stop(None)`: an idle actor exits now, a busy one after its current handler. -/
+/-- `actor.stop(None)`: the stop signal outranks queued messages; a busy actor exits after its
+current handler, an idle one as soon as its task runs. -/
 def Env.stop (e : Env) (aid : Nat) : Env :=
   match e.getActor aid with
   | none => e
+  | some a => if !a.alive then e else e.setActor { a with stopReq := true }
+
+/-- one worker task gets to run: exit on a pending stop, else take the next message (its
+handler logs `start` and waits at the gate) -/
+def Env.settleOne (e : Env) (aid : Nat) : Env :=
+  match e.getActor aid with
+  | none => e
   | some a =>
-    if !a.alive then e
-    else if a.running.isSome then e.setActor { a with stopReq := true }
-    else e.die aid
+    if !a.alive || a.running.isSome then e
+    else if a.stopReq then e.die aid
+    else
+      match a.mailbox with
+      | [] => e
+      | j :: rest => (e.setActor { a with running := some j, mailbox := rest }).emit (.start aid j.id j.key)
+
+/-- every worker task runs until it blocks again -/
+def Env.settle (e : Env) : Env := (e.actors.map (·.aid)).foldl Env.settleOne e
 
 def Env.spawn (e : Env) (wid aid : Nat) : Env :=
   { e with actors := e.actors ++ [{ aid, wid }], log := e.log ++ [Ev.build wid aid] }
@@ -685,6 +701,10 @@ def W.postStop (w : W) : W :=
   let e := w.pool.foldl (fun e p => p.mq.foldl (fun e j => e.emit (.dropped j.id)) e) e
   let e := w.pool.foldl (fun e p => e.stop p.actor) e
   let e := e.emit (.hook .stopped)
+  -- messages still in the mailbox are dropped with it
+  let e := w.inbox.foldl (fun e m => match m with
+    | .dispatch j => if j.port then (e.emit (.dropped j.id)).emit (.portClosed j.id) else e.emit (.dropped j.id)
+    | _ => e) e
   { w with env := { e with sup := [] }, queue := [], stopped := true, inbox := [], pool := w.pool.map (fun p => { p with mq := [] }) }
 
 def W.replyAvailableCapacity (w : W) : Nat :=
@@ -730,13 +750,16 @@ def W.loopStep (w : W) : Option W :=
       | m :: rest => some (({ w with inbox := rest }).handleMsg m).afterHandle
       | [] => none
 
-/-- run the factory to quiescence -/
+/-- run the factory to quiescence: the factory task runs until it has nothing to do (or is
+suspended), then the worker tasks run; deaths among them wake the factory again -/
 def W.runQ : Nat → W → W
   | 0, w => w
   | fuel + 1, w =>
     match w.loopStep with
     | some w => W.runQ fuel w
-    | none => w
+    | none =>
+      let w' := { w with env := w.env.settle }
+      if w'.env.sup.isEmpty || w'.stopped || w'.blocked then w' else W.runQ fuel w'
 
 def RUN_FUEL : Nat := 4096
 
@@ -788,13 +811,7 @@ def W.finish (w : W) (aid : Nat) (ok : Bool) : W :=
         let e := w.env.emit (.finishOk aid)
         let w := { w with env := e }
         let w := w.send (.finished a.wid j.key)
-        if a.stopReq then
-          { w with env := (w.env.setActor { a with running := none }).die aid }
-        else
-          match a.mailbox with
-          | [] => { w with env := w.env.setActor { a with running := none } }
-          | nj :: rest =>
-            { w with env := (w.env.setActor { a with running := some nj, mailbox := rest }).emit (.start aid nj.id nj.key) }
+        { w with env := (w.env.setActor { a with running := none }).settleOne aid }
 
 def W.applyOp (w : W) : Op → W
   | .dispatch id key hash ttl acc =>
